@@ -300,6 +300,9 @@ func genDoc(r *hx.Rng, sz sizeCase, repeat bool) ldoc {
 					n = 0
 				}
 				lv := 0
+				if r.Chance(1, 5) { // the list starts with a nested item (a list continued from the page before)
+					lv = r.Range(1, 3)
+				}
 				for i := 0; i < n; i++ {
 					switch r.Intn(4) {
 					case 0:
